@@ -21,6 +21,11 @@ FLAGGED = [
 LEADS = ["", "\U0001F600 ", "é café ", "\U0001D400\U0001D401 ", "\t", "中文 ", "\U0001F468\u200d\U0001F469\u200d\U0001F467 ok ", "  ",
          "\ufeff", "\u200b", "\u00ad", "\u2060 ", "co\u00adop\u00aderation ", "soft\u00adhyphen\u00aded words ", "\U0001F600" * 10 + " ", "\U0001D400\U0001D401\U0001D402\U0001D403\U0001D404\U0001D405 ", "\U0001F600\U0001F600\U0001F600\U0001F600 \U0001F600\U0001F600\U0001F600\U0001F600 "]
 SHORT = ["is is", "and and", "the the", "teh", "a a"]
+# lints whose flagged characters themselves contain astral characters: a word with a Latin Extended-G letter, a sentence of
+# more than 40 words with emoji in it (the readability lint covers the whole sentence), a repeated word around a Markdown link
+ASTRAL_INSIDE = ["I saw \U0001DF00hello there", "the w\U0001DF04rld is \U0001DF00hello",
+                 "this sentence goes on and on \U0001F600 and it has a great many words in it because it wants to be longer than forty words which takes a while \U0001F389 so it keeps going and going until the count is finally reached and then it stops",
+                 "we went to [to \U0001F600](http://x.y/\U0001F600) the shop", "It was the \U0001F600 the end"]
 # lints that cross a line break (repeated word over a newline / soft break / consecutive comment lines)
 CROSS = [("This is the", "the test"), ("We went to to", "to the shop"), ("\U0001F600 it was and", "and so on")]
 LANGS = ["plaintext", "markdown", "html", "typst", "git-commit", "rust", "javascript", "python"]
@@ -52,7 +57,7 @@ def make_prose_lines(rng, sentences):
             lines.append(a)
             lines.append(b + ".")
             continue
-        body = rng.choice(SHORT) if r < 0.2 else rng.choice(FLAGGED) if r < 0.7 else rng.choice(sentences)
+        body = rng.choice(SHORT) if r < 0.2 else rng.choice(ASTRAL_INSIDE) if r < 0.3 else rng.choice(FLAGGED) if r < 0.7 else rng.choice(sentences)
         lead = rng.choice(LEADS)
         tail = rng.choice([".", ".", " \U0001F600.", ".  ", ""])
         lines.append(lead + body + tail)
@@ -201,6 +206,7 @@ def check_doc(workdir, lang, text, findings, counters):
             if (sl, sc, el, ec, msg) not in pub:
                 finding("range.not-published", "lint %r at chars %d..%d should be published at %d:%d-%d:%d; published ranges with that message: %r" % (
                     msg, a, b, sl, sc, el, ec, sorted(p[:4] for p in pub if p[4] == msg)))
+            counters["astral_inside"] = counters.get("astral_inside", 0) + any(ord(ch) > 0xFFFF for ch in text[a:b])
             ok = describes_itself(msg, text[a:b])
             if ok is not None:
                 counters["self_described"] = counters.get("self_described", 0) + 1
@@ -236,7 +242,7 @@ def run(tier, seed, scale, verif):
     t0 = time.time()
     rng = random.Random(seed * 7919 + 8)
     sentences = load_sentences(verif)
-    ndocs = int((60 if tier == "quick" else 1500) * scale)
+    ndocs = int((150 if tier == "quick" else 1500) * scale)
     docs = [make_doc(rng, sentences) for _ in range(ndocs)]
     # fixed edge cases: lints on the last line without a trailing newline, first line, CRLF, astral before lint
     docs += [("plaintext", "This is the\nthe test."), ("markdown", "Soft break the\nthe end.\n"), ("rust", "// comment with the\n// the repeated word\nfn main() {}\n"),
@@ -246,7 +252,7 @@ def run(tier, seed, scale, verif):
     base = os.path.join(verif, "target", "run", "c08")
     shutil.rmtree(base, ignore_errors=True)
     findings_all = []
-    counters = {"diagnostics": 0, "lints": 0, "edits": 0, "self_described": 0}
+    counters = {"diagnostics": 0, "lints": 0, "edits": 0, "self_described": 0, "astral_inside": 0}
     shapes = set()
     samples = []
     evaluations = 0
@@ -255,7 +261,7 @@ def run(tier, seed, scale, verif):
     def work(i):
         lang, text = docs[i]
         f = []
-        c = {"diagnostics": 0, "lints": 0, "edits": 0, "self_described": 0}
+        c = {"diagnostics": 0, "lints": 0, "edits": 0, "self_described": 0, "astral_inside": 0}
         try:
             probes = check_doc(os.path.join(base, "w%d" % i), lang, text, f, c)
             return i, probes, f, c, None
@@ -294,7 +300,7 @@ def run(tier, seed, scale, verif):
     if len(inconclusive) > len(docs) // 4:
         inconclusive.append("more than a quarter of the documents could not be checked")
     return {"evaluations": evaluations, "distinct_nontrivial": len(shapes), "samples": samples, "findings": list(merged.values()),
-            "notes": ["documents=%d positions probed=%d diagnostics=%d lints=%d edits=%d" % (len(docs), evaluations, counters["diagnostics"], counters["lints"], counters["edits"])],
+            "notes": ["documents=%d positions probed=%d diagnostics=%d lints=%d (%d of them with astral characters inside the flagged text) edits=%d" % (len(docs), evaluations, counters["diagnostics"], counters["lints"], counters["astral_inside"], counters["edits"])],
             "inconclusive": inconclusive[:5], "counters": counters, "wall_s": time.time() - t0}
 
 
